@@ -1,5 +1,6 @@
 import JsightVerif.Model.ScanGen
 import JsightVerif.Model.Project
+import Driver.Reach
 /-
   Line-protocol driver (DESIGN Appendix A): one case per line on stdin, one
   canonical result line on stdout. Core-only so it links as a `lean_exe`.
@@ -213,7 +214,9 @@ partial def loop (h : IO.FS.Stream) (out : IO.FS.Stream) : IO Unit := do
   out.putStrLn (handle line)
   loop h out
 
-def main : IO Unit := do
+def main (args : List String) : IO UInt32 := do
+  if args == ["reach"] then return (← Reach.run)
   let out ← IO.getStdout
   loop (← IO.getStdin) out
   out.flush
+  return 0
